@@ -551,6 +551,37 @@ pub fn run(args: &Args) -> i32 {
             judge(run_sim, &banks, 88, None, json!({"fault": format!("pad block header: {what}"), "block": d[1], "requested_samples": req}), loc);
         });
     }
+    // pad packets with different numbers of samples in one event (every pair out of 6 sample counts, two chips of
+    // one board and chips of two boards): every pad gets its own waveform, cut at its own length
+    {
+        let counts = [101u16, 110, 131, 200, 300, 511];
+        rep.run("pad-packets-of-different-lengths", 6 * 6 * 2, 120, true, "two pad messages in one event with requested_samples (a, b) over {101, 110, 131, 200, 300, 511}^2, on two chips of one board / on two boards", |idx, loc| {
+            let d = unrank(idx, &[6, 6, 2]);
+            let (na, nb) = (counts[d[0] as usize], counts[d[1] as usize]);
+            let (b2, c2) = if d[2] == 0 { ("12", 3u8) } else { ("20", 1u8) };
+            let ts = 9100 + idx as u32;
+            let mut banks: Banks = vec![("ATAT".into(), trg_packet(ts))];
+            let mut want = Vec::new();
+            let mut ok = true;
+            for (board, chip, n, pat) in [("12", 0u8, na, 0u64), (b2, c2, nb, 1)] {
+                let chans: Vec<(u16, Vec<i16>)> = [4u16, 17, 40, 79].iter().map(|&ro| (ro, pad_samples(ro, n as usize, pat))).collect();
+                banks.extend(pwb_banks(board, chip, &pwb_payload(board, chip, n, &chans), 8192));
+                for (ro, raw) in &chans {
+                    if let Some(RefPwbChan::Pad(ch)) = ref_readout_to_chan(*ro) {
+                        match pad_slot(run_sim, board, chip, ch).and_then(|p| pad_cal(run_sim, p).map(|c| (p, c))) {
+                            Some((p, (bl, g, dl))) => {
+                                if let Some(s) = expected_signal(raw, bl, g, dl) {
+                                    want.push((p, s));
+                                }
+                            }
+                            None => ok = false,
+                        }
+                    }
+                }
+            }
+            judge(run_sim, &banks, ts, if ok { Some((vec![], want)) } else { None }, json!({"two_pad_packets": [na, nb], "second": [b2, c2]}), loc);
+        });
+    }
     // a duplicate on every wire and on every chip (a "seen" set that does not cover the whole detector)
     rep.run("duplicate-on-every-element", (256 + 71 * 4) * 2, 120, true, "every one of the 256 wires: two full banks with different samples; every (board, chip) of the simulation run: two messages in different chunk groups whose packets name the same chip (same pads, different samples); both orders: the event is rejected", |idx, loc| {
         let (k, swapped) = (idx / 2, idx % 2 == 1);
